@@ -217,11 +217,11 @@ def is_stub_body(funcnode):
 
 
 # ------------------------------------------------------------------- guards
-def dominating_guards(fi, target_node):
+def dominating_guards(fi, target_node, tm=None):
     """[(term, ast test)] of facts known to hold at the CFG node: branch tests whose True/False
     edge dominates it (as the term that is true there) and asserts that dominate it."""
     c = cfg_of(fi)
-    tm = terms_of(fi)
+    tm = tm or terms_of(fi)
     out = []
     for n in c.nodes:
         if n.kind == "test":
